@@ -31,6 +31,10 @@ Section Bil.
 
   Definition in_bounds (na nb no : nat) (s : term) : Prop := ia s < na /\ ib s < nb /\ io s < no.
 
+  (* S read as the map (g, B) |-> cotangent of A, and as the map (g, A) |-> cotangent of B (BilinearClosed.v) *)
+  Definition permA (s : term) : term := {| ia := io s; ib := ib s; io := ia s; coef := coef s |}.
+  Definition permB (s : term) : term := {| ia := io s; ib := ia s; io := ib s; coef := coef s |}.
+
   Fixpoint ksum (l : list K) : K := match l with [] => k0 | x :: r => kadd x (ksum r) end.
 
   Lemma dot_map_gather : forall (S : list term) (f : term -> K) (p : term -> nat) (v : list K),
